@@ -348,8 +348,8 @@ def pipe_rule(ctx, r):
         todo.append((f, cs[0], label))
     for clo in facts.closures_of("rg::search_parallel"):
         cs = clo.calls_to("termcolor::BufferWriter::print")
-        if cs:
-            todo.append((clo, cs[0], "BufferWriter::print in search_parallel"))
+        for i_, c_ in enumerate(cs):
+            todo.append((clo, c_, "BufferWriter::print in search_parallel" + ("" if i_ == 0 else " #%d" % i_)))
     if len(todo) < 4:
         r.bad("sites", "anchor-missing: expected 4 stdout-writing error sites, found %d" % len(todo))
     for f, c, label in todo:
@@ -524,7 +524,9 @@ def continue_rule(ctx, r):
     for clo in facts.closures_of("rg::search_parallel"):
         for i, c in enumerate(clo.calls_to(SEARCH)):
             found += 1
-            s = seed_after_call(clo, c, V("Err", None))
+            # (the closed-pipe edge of printing what was found before the failure is a quiet Quit, decided by C15.PIPE)
+            pipe_true = {te for bb, te, fe, e in pipe_switches(clo)}
+            s = seed_after_call(clo, c, V("Err", None), removed_edges=pipe_true)
             se = calls_in(clo, s.exec_blocks, SET_ERRORED)
             vals = set(s.ret_values.values())
             if se and vals == {V("Continue", None)}:
